@@ -160,7 +160,7 @@ def run_case(case, ctx):
     if rng.random() < 0.3:
         # a change of unit (MPa -> strain-like magnitudes or Pa): powers of two, so that scaling itself is exact
         c_load = float(2.0 ** int(rng.choice([-17, -10, 10, 20])))
-        c_cyc = float(2.0 ** int(rng.choice([-10, 10])))
+        c_cyc = float(2.0 ** int(rng.choice([-24, -20, -10, 10, 20])))          # down to cycles counted in millions (knee below 1)
         ctx.tag("relation:scaling_by_orders_of_magnitude")
     if c_load == 1.0:
         c_load = 4.0
